@@ -16,6 +16,11 @@ def x_obligations(tier):
                 o.append(Obl(f"C17-crash[{sid},first-write={first},old#{ok}{ov},new#{nk}{nv}]", M, "crash",
                              env={"VF_SID": sid, "VF_OTHER": other, "VF_FIRST_WRITE": str(first), "VF_OLD_K": str(ok), "VF_OLD_V": str(ov), "VF_NEW_K": str(nk), "VF_NEW_V": str(nv)}, timeout=T, family="C17-crash",
                              bound="crash before each of the first 7 file-system effects of the write; a dying write stores 0, 1, 9 or 30 characters (solver-chosen)"))
+        # the interrupted write carries the LONG value, the next completed write makes the data shorter (a stale temporary file must not show)
+        for first in (0, 1):
+            o.append(Obl(f"C17-crash[{sid},first-write={first},long-then-shorter]", M, "crash",
+                         env={"VF_SID": sid, "VF_OTHER": other, "VF_FIRST_WRITE": str(first), "VF_OLD_K": "0", "VF_OLD_V": "0", "VF_NEW_K": "0", "VF_NEW_V": "1", "VF_NEXT": "shorten"}, timeout=T, family="C17-crash",
+                         bound="as C17-crash; the interrupted write carries a long value, the next completed write a one-character value for the same key"))
         for mode in range(4):
             for lo in ((0, 20, 40, 60) if mode == 0 else (0,)):
                 if tier == "quick" and sid != "h/a/x/v1/m" and lo:
